@@ -321,9 +321,11 @@ func (m *model) renameMailbox(rid imap.MailboxID, name string) expect {
 
 // addDeletedSubscription: upsert by name; the remote id is unique as well (GetDeletedSubscriptionSet is keyed by it).
 func (m *model) addDeletedSubscription(name string, rid imap.MailboxID) expect {
+	// a remote id has one name: an entry of the same remote id under another name is replaced (gluon fix "a deleted
+	// subscription kept under another name no longer blocks deleting the mailbox")
 	for n, r := range m.deletedSubs {
 		if r == rid && n != name {
-			return expErr
+			delete(m.deletedSubs, n)
 		}
 	}
 
